@@ -155,6 +155,43 @@ def check(run, ctx):
                 ok = "rstrip" in ast.unparse(p_) and isinstance(nxt, ast.Constant) and str(nxt.value).startswith("\n")
         (run.ok(G6, "append path", norm(v)) if ok else run.finding(G6, "merge_config_sections", f"append:{norm(v)}", f"`{norm(v)}`: the user's content is not terminated (rstrip() + newline) before the sections are appended", mc.loc))
 
+    fp_ = repo.func("src.cli.config_merge._find_global_settings_position")
+    cpar = fp_.node.args.args[0].arg
+    finds = {t.id for n in ast.walk(fp_.node) if isinstance(n, ast.Assign) and _is_find_of(n.value, cpar) for t in n.targets if isinstance(t, ast.Name)}
+    bad_ret = None
+    for n in ast.walk(fp_.node):
+        if isinstance(n, ast.Return) and n.value is not None:
+            v = n.value
+            if _is_find_of(v, cpar) or (isinstance(v, ast.Name) and v.id in finds) or (isinstance(v, ast.UnaryOp) and isinstance(v.operand, ast.Constant)) or (isinstance(v, ast.Constant) and v.value == -1):
+                continue
+            if isinstance(v, ast.Call) and call_name(v) == "start":
+                continue
+            bad_ret = v
+    if bad_ret is not None:
+        run.finding(G6, "_find_global_settings_position", f"position-arithmetic:{norm(bad_ret)}", f"the insert position is computed (`{norm(bad_ret)}`) instead of being the start of the matched banner: whatever the user wrote between that position and the banner (e.g. the last indented setting of the section above) ends up below the inserted sections and changes its parent", fp_.loc)
+    else:
+        run.ok(G6, "_find_global_settings_position", "returns the start of the matched marker (or -1)")
+
+    G8 = run.rule("G8", "a validator of src/config.py skips its check only when the key is absent (KeyError / `in` / `is None`), never because the value is falsy", floor=3,
+                  decides="`config set timeout 0`, `max_retries \"\"` and similar falsy values are validated (and rejected) like any other value")
+    for f in sorted(repo.funcs_in("src.config."), key=lambda x: x.qual):
+        if not f.name.startswith("_validate_") or f.parent is not None:
+            continue
+        got = {t.id for n in ast.walk(f.node) if isinstance(n, ast.Assign) and isinstance(n.value, ast.Call) and call_name(n.value) == "get" for t in n.targets if isinstance(t, ast.Name)}
+        bad = None
+        for n in ast.walk(f.node):
+            if isinstance(n, ast.If) and any(isinstance(st, ast.Return) for st in n.body):
+                t = n.test
+                x = t.operand if isinstance(t, ast.UnaryOp) and isinstance(t.op, ast.Not) else None
+                if isinstance(x, ast.Name) and x.id in got:
+                    bad = (n, x)
+                if isinstance(x, ast.Call) and call_name(x) == "get":
+                    bad = (n, x)
+        if bad:
+            run.finding(G8, f.qual.replace("src.", "", 1), f"falsy-skip:{norm(bad[0].test)}", f"{f.name} returns without validating when `{norm(bad[0].test)}`: a falsy value (0, 0.0, '', false) is then accepted and written although the schema forbids it", f"{f.module.rel}:{bad[0].lineno}")
+        else:
+            run.ok(G8, f.qual.replace("src.", "", 1), "validation is skipped only for an absent key")
+
     G7 = run.rule("G7", "the config writers serialise with options under which a validated configuration cannot fail half-way (the file is opened for writing before dump is called)", floor=2,
                   decides="a value that cannot be written does not leave a truncated config file")
     SAFE = {"_write_json_config": {"indent", "sort_keys", "ensure_ascii"}, "_write_yaml_config": {"default_flow_style", "sort_keys", "allow_unicode", "indent", "width"}}
@@ -194,3 +231,8 @@ def check(run, ctx):
     a, b = suff(rd), suff(wr)
     (run.ok(G5, "suffix sets", f"{sorted(map(str, a))}") if a == b and a else run.finding(G5, "src.config", f"suffixes:{sorted(map(str, a ^ b))}", f"reader handles {sorted(map(str, a))} but writer handles {sorted(map(str, b))}: a saved file may not load back", rd.loc))
     return __doc__
+
+
+
+def _is_find_of(v, cpar) -> bool:
+    return isinstance(v, ast.Call) and call_name(v) == "find" and isinstance(v.func, ast.Attribute) and isinstance(v.func.value, ast.Name) and v.func.value.id == cpar
